@@ -141,6 +141,9 @@ type directoryEntry struct {
 	SystemUse                     []byte
 }
 
+// maxDirectoryEntrySize is a maximum size of directory entry because it's length stored in one byte.
+const maxDirectoryEntrySize sizeBytes = 255
+
 func (de directoryEntry) size() sizeBytes {
 	identifierLen := len(de.Identifier)
 	idPaddingLen := (identifierLen + 1) % 2
